@@ -2,6 +2,7 @@
    The documented PEG semantics is the clean evaluator [peval] of Engine/Calls.v (no memo, no seeds);
    the theorems below are its laws, for every grammar, text, oracle, configuration and frame.        *)
 From Coq Require Import List NArith.
+From TatsuV Require Import Engine.AssocProof.
 From TatsuV Require Import Base.PyStr Engine.Value Engine.Syntax Engine.Input Engine.Engine Engine.Calls
      Engine.EngineRel Engine.CleanLaws Engine.MemoProof Engine.BoundsProof Engine.FaithfulBounds.
 Import ListNotations.
@@ -112,7 +113,25 @@ Theorem C01_consumed_bounds_faithful :
   parse_with text re_at isalnum isalpha lower upper ic unsafe rules ec act lineat n start = (Ok v f', st) -> pos f' <= len text.
 Proof. exact (parse_consumed_bounds text re_at isalnum isalpha lower upper ic unsafe rules ec act lineat). Qed.
 
+(* left / right joins: the flat result e0 op1 e1 op2 e2 ... of the positive join becomes ONE tree, merged into what the
+   sequence had collected so far (nothing collected before the join is lost; the cut flag of the caller is untouched) *)
+Theorem C01_assoc_join : forall n lft e f v f',
+  peval' (S n) (Assoc lft e) f = Ok v f' ->
+  exists r f1, peval' n e (push f) = Ok r f1 /\
+    v = (if lft then left_assoc else right_assoc) (list_items r) /\
+    cst f' = cstmerge (cst f) v /\ pos f' = pos f1 /\ fast f' = fast f1 /\ cutseen f' = cutseen f /\ last f' = v.
+Proof. exact (peval_assoc_keeps_collected text re_at isalnum isalpha lower upper ic unsafe rules ec act lineat). Qed.
+
 End C01.
+
+(* the trees: a left join nests to the left, ((e0 op1 e1) op2 e2) ..., a right join to the right, e0 op1 (e1 op2 (e2 ...)),
+   for ANY number of operands; each node is the open list [op; left; right] *)
+Theorem C01_left_join_tree : forall e0 ps,
+  left_assoc (e0 :: flat ps) = fold_left (fun a p => node (fst p) a (snd p)) ps e0.
+Proof. exact left_assoc_spec. Qed.
+
+Theorem C01_right_join_tree : forall e0 ps, right_assoc (e0 :: flat ps) = right_nest e0 ps.
+Proof. exact right_assoc_spec. Qed.
 
 (* the full statement "a rule's value is always one element of its caller" is FALSE of the faithful model (and of the
    code: replayed by harness/props/c01.py): start = r 'c' ; r = @:('a' 'b') on "abc" yields ['a','b','c'], not [['a','b'],'c'] *)
@@ -120,6 +139,9 @@ Theorem C01_rule_value_one_element_refuted :
   exists f, o_run = Ok (VList true [VStr [97%N]; VStr [98%N]; VStr [99%N]]) f.
 Proof. exact override_list_is_flattened. Qed.
 Print Assumptions C01_consumed_bounds.
+Print Assumptions C01_assoc_join.
+Print Assumptions C01_left_join_tree.
+Print Assumptions C01_right_join_tree.
 Print Assumptions C01_consumed_bounds_faithful.
 Print Assumptions C01_semantics_deterministic.
 Print Assumptions C01_choice_ordered.
